@@ -44,4 +44,18 @@ def run(pid, spec, out):
 if __name__ == "__main__":
     faulthandler.enable()
     sys.setrecursionlimit(10000)
-    run(sys.argv[1], json.loads(sys.argv[2]), sys.argv[3])
+    cov = None
+    if os.environ.get("VF_COV_DIR"):
+        # development aid (never set by a registered command): line coverage of the repository under this shard, used
+        # to find code the workloads never drive
+        import coverage
+
+        os.environ.setdefault("COVERAGE_CORE", "sysmon")
+        cov = coverage.Coverage(data_file=os.path.join(os.environ["VF_COV_DIR"], f".coverage.{sys.argv[1]}"), data_suffix=True, source=[os.path.join(os.environ.get("VERIF_REPO", "/repo"), "claripy")])
+        cov.start()
+    try:
+        run(sys.argv[1], json.loads(sys.argv[2]), sys.argv[3])
+    finally:
+        if cov is not None:
+            cov.stop()
+            cov.save()
